@@ -5,6 +5,7 @@ import (
 	"regexp"
 	"strings"
 	"testing"
+	"unicode"
 
 	"pgregory.net/rapid"
 
@@ -256,6 +257,24 @@ func c15Check(c c15Case, rec *evid.Recorder) *Fail {
 // c15Prefixes: what stands between `//` and the marker (mostly nothing).
 var c15Prefixes = []string{"", "", "", "", "", "/", "//", "///////", " ", "   ", "\t", "/*", "*", "!", "-", " / "}
 
+// c15Content draws the text of a comment: an entry of the pool, or words that
+// end in a character drawn from several scripts (the last byte of its UTF-8
+// form takes every continuation value) - never a Unicode space, which a printer
+// may count as trailing white space.
+func c15Content(r gen.R, label string) string {
+	if r.Intn(5, label+"gen") > 0 {
+		return c15Contents[r.Intn(len(c15Contents), label)]
+	}
+	ranges := [][2]int{{0xA1, 0xFF}, {0x100, 0x17F}, {0x391, 0x3C9}, {0x410, 0x44F}, {0x4E00, 0x4EFF}, {0x8C00, 0x8CFF}, {0x1F600, 0x1F64F}}
+	rg := ranges[r.Intn(len(ranges), label+"range")]
+	for {
+		c := rune(rg[0] + r.Intn(rg[1]-rg[0]+1, label+"rune"))
+		if !unicode.IsSpace(c) && unicode.IsPrint(c) {
+			return []string{" voil", " ", " note ", ""}[r.Intn(4, label+"lead")] + string(c)
+		}
+	}
+}
+
 func markerInText(s string) bool { return regexp.MustCompile(`#\d+#`).MatchString(s) }
 
 func c15Gen(t *rapid.T, rec *evid.Recorder) c15Case {
@@ -310,8 +329,8 @@ func c15Gen(t *rapid.T, rec *evid.Recorder) c15Case {
 		hasComment := false
 		if !first && r.Intn(4, "trailing") == 0 {
 			marker++
-			t1 := fmt.Sprintf("%s#%d#%s", c15Prefixes[r.Intn(len(c15Prefixes), "prefix")], marker, c15Contents[r.Intn(len(c15Contents), "content")])
-			t2 := fmt.Sprintf("%s#%d#%s", c15Prefixes[r.Intn(len(c15Prefixes), "prefix2")], marker, c15Contents[r.Intn(len(c15Contents), "content2")])
+			t1 := fmt.Sprintf("%s#%d#%s", c15Prefixes[r.Intn(len(c15Prefixes), "prefix")], marker, c15Content(r, "content"))
+			t2 := fmt.Sprintf("%s#%d#%s", c15Prefixes[r.Intn(len(c15Prefixes), "prefix2")], marker, c15Content(r, "content2"))
 			a.WriteString(" //" + t1)
 			b.WriteString(" //" + t2)
 			c.Comments = append(c.Comments, c15Comment{Marker: marker, Text: t1, Text2: t2, Trailing: true, Next: next, Depth: depth})
@@ -335,8 +354,8 @@ func c15Gen(t *rapid.T, rec *evid.Recorder) c15Case {
 				nl()
 			}
 			marker++
-			t1 := fmt.Sprintf("%s#%d#%s", c15Prefixes[r.Intn(len(c15Prefixes), "prefix")], marker, c15Contents[r.Intn(len(c15Contents), "content")])
-			t2 := fmt.Sprintf("%s#%d#%s", c15Prefixes[r.Intn(len(c15Prefixes), "prefix2")], marker, c15Contents[r.Intn(len(c15Contents), "content2")])
+			t1 := fmt.Sprintf("%s#%d#%s", c15Prefixes[r.Intn(len(c15Prefixes), "prefix")], marker, c15Content(r, "content"))
+			t2 := fmt.Sprintf("%s#%d#%s", c15Prefixes[r.Intn(len(c15Prefixes), "prefix2")], marker, c15Content(r, "content2"))
 			ind := strings.Repeat(" ", r.Intn(5, "indent"))
 			a.WriteString(ind + "//" + t1 + "\n")
 			b.WriteString(ind + "//" + t2 + "\n")
